@@ -63,6 +63,13 @@ func c15Mutations() []wsMutation {
 		func(s *wsSession, i int) { s.frames[i].Payload = payloadBytes(7, 126) }})
 	ms = append(ms, wsMutation{"frame-over-max", "oversize", func(s *wsSession, i int) bool { return !isCtl(s.frames[i].Op) },
 		func(s *wsSession, i int) { s.frames[i].Payload = payloadBytes(9, c15Max+1) }})
+	// a declared length with the top bit of the 64-bit field set (RFC 6455 5.2: the most significant bit MUST be 0), whose
+	// low 63 bits are a perfectly acceptable length — and that many payload bytes follow
+	ms = append(ms, wsMutation{"length-top-bit-set", "oversize", func(s *wsSession, i int) bool { return !isCtl(s.frames[i].Op) },
+		func(s *wsSession, i int) {
+			s.frames[i].LenEnc = 8
+			s.frames[i].Decl = u64p(1<<63 + uint64(len(s.frames[i].Payload)))
+		}})
 	ms = append(ms, wsMutation{"continuation-without-start", "fragmentation",
 		func(s *wsSession, i int) bool {
 			return s.fmsg[i] >= 0 && s.frames[i].Op != wsref.OpCont
@@ -249,7 +256,7 @@ func C15(tier string) *engine.Report {
 	var tot engine.DFSTotals
 	d := c15DFS(tier)
 	tot.Add(d.Run(), rep)
-	tot.Fill(rep, "conforming sessions from the C06 generator with exactly one injected violation (13 framing kinds, oversize frame, oversize message by fragments, continuation without start, data frame inside a fragmented message) at every frame position where it applies, "+
+	tot.Fill(rep, "conforming sessions from the C06 generator with exactly one injected violation (13 framing kinds, oversize frame, a 64-bit length with the top bit set, oversize message by fragments, continuation without start, data frame inside a fragmented message) at every frame position where it applies, "+
 		"x 4 read APIs x inline/deferred, x all combinations of up to N deviations (fragmentation, control insertion, extra message, trailing close, cuts / byte-by-byte); every case is non-trivial (it contains a violation)", d.MaxDeviations)
 	return rep
 }
